@@ -125,6 +125,76 @@ func c11Worker(w *W) {
 			}
 		}
 	}
+	// Refresh applies the two switches in Go-map order, which changes from call to call: the outcome must not depend on it.
+	// 120 short cycles over every combination (fastCaller given as true / false / not at all - then the previous value
+	// stays), a handful of sites each: lookup off means an empty location whatever fastCaller says, lookup on means the
+	// statement's location in whichever mode is in force.
+	{
+		nSites := 6
+		if nSites > len(c11sites) {
+			nSites = len(c11sites)
+		}
+		cyclesOK := 0
+		for k := 0; k < 120; k++ {
+			caller := []string{"false", "true"}[(k/3)%2]
+			if k%5 == 0 {
+				caller = "false"
+			}
+			cfg := map[string]string{"appender.rec.type": "VRec", "logger.lg.type": "Logger", "logger.lg.tags": "c11tag", "logger.lg.appenderRef.ref": "rec", "enableCaller": caller}
+			switch k % 3 {
+			case 0:
+				cfg["fastCaller"] = "true"
+			case 1:
+				cfg["fastCaller"] = "false"
+			}
+			if err := log.Refresh(cfg); err != nil {
+				w.Violate("C11:refresh-failed", "Refresh failed: "+err.Error(), cfg)
+				log.Destroy()
+				break
+			}
+			type exp struct {
+				f string
+				l int
+			}
+			expAt := map[string]exp{}
+			for i := 0; i < nSites; i++ {
+				s := c11sites[i]
+				c11E[i].f, c11E[i].l = "", 0
+				if pv, _ := catch(func() { s.run(ctx, tag) }); pv != nil {
+					continue
+				}
+				e := exp{c11E[i].f, c11E[i].l}
+				if s.staticLine != 0 {
+					e = exp{inlFile, s.staticLine}
+				}
+				expAt[fmt.Sprintf("id-c11-%d", i)] = e
+			}
+			log.Destroy()
+			good := true
+			for _, it := range rec.take() {
+				e, ok := expAt[idOf(it.JSON)]
+				if !ok {
+					continue
+				}
+				w.Eval(1)
+				cs := map[string]any{"cycle": k, "config": cfg, "phase": "switches applied in map order"}
+				if caller == "false" && (it.File != "" || it.Line != 0) {
+					good = false
+					w.Violate("C11:location-when-disabled:order", fmt.Sprintf("cycle %d: enableCaller=false (fastCaller=%q) but the record carries %s:%d", k, cfg["fastCaller"], it.File, it.Line), cs)
+				} else if caller == "true" && (it.File != e.f || it.Line != e.l) {
+					good = false
+					w.Violate("C11:wrong-location:order", fmt.Sprintf("cycle %d: enableCaller=true (fastCaller=%q): record says %s:%d, the statement is at %s:%d", k, cfg["fastCaller"], it.File, it.Line, e.f, e.l), cs)
+				}
+			}
+			if good {
+				cyclesOK++
+			}
+		}
+		w.Count("switch_order_cycles", int64(cyclesOK))
+		if cyclesOK == 120 {
+			w.Distinct("switch-order-cycles|" + w.Spec.Flavour)
+		}
+	}
 	// concurrent phase (not in the race build: the generated sites store their marker in a shared table): 16 goroutines
 	// hammer randomly chosen sites (32 calls in a row each time); the lookup caches are shared between goroutines. A cheap
 	// appender compares each event's location with the one established above (millions of observations per second, so
